@@ -85,10 +85,12 @@ def C01(ctx):
     ctx.only = ("K1.", "K4.reclaim-after-unlink", "HP.protocol", "HP.active-gather", "HP.delete-licensed", "HP.validate-after-protect",
                 "HE.protocol", "HE.active-gather", "HE.delete-licensed", "HE.era-after-load", "HE.era-stable", "HE.exception-safety", "HE.retire", "HE.shared-slot",
                 "EBR.protocol", "EBR.orphans", "EBR.constants", "EBR.epoch-slots", "EBR.activity", "EBR.scan-cursor", "QSBR.protocol", "QSBR.constants", "QSBR.activity",
-                "STAMP.protocol", "STAMP.help-pending-push", "STAMP.delete-licensed", "LFRC.", "K3.", "K13.")
+                "STAMP.protocol", "STAMP.help-pending-push", "STAMP.delete-licensed", "LFRC.", "K3.", "K13.", "GUARD.")
     k1_rules(ctx, "C01")
     reclaim.reclaim_after_unlink(ctx, [".hpp"])
     ctx.floor("K4.reclaim-after-unlink", 20)
+    harris.guard_deref_after_release(ctx, [".hpp"])
+    ctx.floor("GUARD.deref-after-release", 300)
     scheme_rules(ctx)
     typestate.rules(ctx)
     typestate.emptiness_predicates(ctx)
@@ -127,6 +129,7 @@ def C04(ctx):
     queues.nikolaev(ctx)
     queues.swing_cas_expected(ctx)
     harris.use_after_move(ctx, FILES["C04"])
+    harris.guard_deref_after_release(ctx, FILES["C04"])
     return ("Decides structural necessary conditions of the three unbounded FIFO queues: link-before-swing and head/tail hand-over rules, ticket "
             "bounds and slot invalidation of the Ramalhete queue in every configuration, sticky finalisation flag of the SCQ (finite evaluation), "
             "construct-before-publish with a finalizable enqueue, reclaim after unlink, memory orders.", "linearizability (order, uniqueness, emptiness verdicts)")
@@ -149,6 +152,7 @@ def C06(ctx):
     reclaim.reclaim_after_unlink(ctx, FILES["C06"])
     queues.kfifo(ctx)
     harris.use_after_move(ctx, FILES["C06"])
+    harris.guard_deref_after_release(ctx, FILES["C06"])
     return ("Decides: ABA tag discipline of every tagged CAS, release-after-commit in push, value only after winning the slot CAS, deleted-before-"
             "advance in the unbounded variant, index field fit of the bounded variant (constructor check surviving NDEBUG), memory orders.",
             "the k-relaxation bound and emptiness verdicts")
@@ -179,6 +183,7 @@ def C08(ctx):
     # a traversal is the observable form of "unique keys, all present keys": the iterator rules that decide duplicates / skipped buckets
     harris.iterator_rules(ctx)
     harris.use_after_move(ctx, FILES["C08"])
+    harris.guard_deref_after_release(ctx, FILES["C08"])
     return ("Decides structural necessary conditions of the Harris-Michael set/map: total order of the search predicate (exhaustive), mark-then-"
             "unlink erase protocol with per-attempt validation of the expected value, insert protocol (next before link, same expected, searched "
             "key is the inserted key, no use of a moved-from key), bucket selection agreement, reclaim after unlink, memory orders.",
@@ -195,6 +200,7 @@ def C09(ctx):
     ctx.only_skip = ("HM.insert",)
     harris.erase_protocol(ctx)
     harris.use_after_move(ctx, FILES["C09"])
+    harris.guard_deref_after_release(ctx, FILES["C09"])
     return ("Decides: the re-scan predicate is a total order (exhaustive finite evaluation); iterators obtain successors through acquire_if_equal, "
             "keep prev paired with the save guard, copy the key before re-finding; erase(iterator) guards the successor before unlinking.",
             "weak consistency of traversals relative to the update history")
@@ -215,6 +221,7 @@ def C10(ctx):
     vyukov.iterator_rules(ctx)
     vyukov.cursor_prev_pairing(ctx)
     vyukov.cache_coherence(ctx)
+    harris.guard_deref_after_release(ctx, FILES["C10"])
     return ("Decides structural necessary conditions of the vyukov_hash_map protocol: reclaim only after a successful extraction; every return "
             "of the lock-free reader passes a version re-validation after its last shared read and the delete-marker test; writer side marker/"
             "key/value/version order and marker value; bucket lock pairing; grow ordering and index mapping; memory orders.",
